@@ -96,6 +96,21 @@ class Roles:
 
 
 # ------------------------------------------------------------- call graph
+def _fn_items(x, out, depth=0):
+    """fn-item constants ({'const': .., 'fn': {...}}) inside statements / call arguments"""
+    if depth > 8:
+        return
+    if isinstance(x, dict):
+        if 'const' in x and isinstance(x.get('fn'), dict):
+            out.append(x['fn'])
+            return
+        for v in x.values():
+            _fn_items(v, out, depth + 1)
+    elif isinstance(x, list):
+        for v in x:
+            _fn_items(v, out, depth + 1)
+
+
 class CallGraph:
     def __init__(self, F):
         self.F = F
@@ -112,6 +127,20 @@ class CallGraph:
                 rp = r['path'] if r else ci['path']
                 lst.append((rp, ci, t['ln'], bi, b['cleanup']))
                 self.callers.setdefault(rp, []).append((fn['path'], t['ln']))
+            # a function passed as a value (`iter.for_each(Self::helper)`, `opt.map(wake_if_some)`) is called by
+            # whoever receives it: count the reference as a call edge of the referencing function
+            for bi, b in enumerate(fn['blocks']):
+                refs = []
+                _fn_items(b['stmts'], refs)
+                t = b['term']
+                if t['k'] == 'call':
+                    _fn_items(t.get('args'), refs)
+                for ci in refs:
+                    r = ci.get('resolved')
+                    rp = r['path'] if r else ci['path']
+                    if rp in F.fns:
+                        lst.append((rp, ci, t.get('ln'), bi, b['cleanup']))
+                        self.callers.setdefault(rp, []).append((fn['path'], t.get('ln')))
             self.callees[fn['path']] = lst
 
     def root_fn(self, path):
@@ -142,11 +171,108 @@ class CallGraph:
         return seen
 
 
-def entry_methods(F, CG, state_adt):
+def state_layer(F, CG, state_adts):
+    """fn path -> state struct, for the methods of the lock-protected state structs, the closures inside them and
+    the free helpers that are only ever called from them"""
+    layer = {}
+    for sp in state_adts:
+        for m in F.methods_of(sp, inherent_only=False):
+            layer[m['path']] = sp
+    changed = True
+    while changed:
+        changed = False
+        for fn in F.raw['fns']:
+            if fn['path'] in layer:
+                continue
+            if fn['kind'] == 'closure':
+                if fn.get('parent') in layer:
+                    layer[fn['path']] = layer[fn['parent']]
+                    changed = True
+                continue
+            callers = [c for c, _ in CG.callers_of(fn['path'])]
+            if callers and all(c in layer for c in callers):
+                layer[fn['path']] = layer[callers[0]]
+                changed = True
+    return layer
+
+
+def direct_state_mutations(F, path, fn):
+    """(field, event) for every MUTATING access to a field of a lock-protected state made by `fn`'s own code (or
+    its closures) - not by a state method it calls - on this path"""
+    out = []
+    for e in path.events:
+        if e.get('fn') != fn['path'] and (F.fn(e.get('fn') or '') or {}).get('parent') != fn['path']:
+            continue
+        locs = []
+        if e['k'] in ('write', 'take', 'replace', 'update_waker'):
+            locs.append(e.get('loc') or e.get('slot'))
+        elif e['k'] == 'qop' and e['op'] not in ('is_empty', 'peek_first', 'peek_last', 'peek_min'):
+            locs.append(e.get('queue'))
+        elif e['k'] == 'call':
+            tys = e.get('argtys') or []
+            for i, a in enumerate(e['args']):
+                if a[0] == 'ref' and i < len(tys) and tys[i].startswith('&mut'):
+                    if i == 0 and a[1] and a[1][-1] == '<locked>':
+                        continue   # the whole state as receiver of one of its methods
+                    locs.append(a[1])
+        for loc in locs:
+            if not loc or '<locked>' not in loc:
+                continue
+            k = loc.index('<locked>')
+            field = next((x for x in loc[k + 1:] if isinstance(x, str)), None)
+            if field is not None:
+                out.append((field, e))
+    return out
+
+
+def breach_wrappers(F, CG):
+    """state struct -> {fn path: fields}: functions OUTSIDE the state layer whose own code mutates a field of that
+    lock-protected state.  They are additional transitions of the primitive; entry_methods() hands them to the rules
+    next to the state's own methods (the engine then addresses the locked state as `self`, see Engine.alias_fns)."""
+    if hasattr(F, '_breach'):
+        return F._breach
+    from engine import Engine
+    roles = Roles(F)
+    states = sorted(roles.state_structs)
+    layer = state_layer(F, CG, states)
+    fields = {sp: set(f['name'] for f in F.adt(sp)['variants'][0]['fields']) for sp in states}
+    E = Engine(F)
+    out = {sp: {} for sp in states}
+    for fn in F.raw['fns']:
+        if fn['path'] in layer or fn['kind'] == 'closure':
+            continue
+        if not any(b['term']['k'] == 'call' and 'fn' in b['term']['func'] and
+                   b['term']['func']['fn']['path'].startswith('lock_api::') and
+                   b['term']['func']['fn']['name'] == 'lock' for b in fn['blocks'] if not b['cleanup']):
+            continue
+        saved = set(F.alias_fns)
+        F.alias_fns.discard(fn['path'])
+        try:
+            paths = E.run(fn['path'])
+        finally:
+            F.alias_fns.update(saved)
+        for path in paths:
+            for field, e in direct_state_mutations(F, path, fn):
+                for sp in states:
+                    mod = sp.rsplit('::', 1)[0]
+                    if field in fields[sp] and fn['path'].lstrip('<').startswith(mod + '::'):
+                        out[sp].setdefault(fn['path'], set()).add(field)
+    F._breach = out
+    for sp in out:
+        F.alias_fns.update(out[sp])
+    return out
+
+
+def entry_methods(F, CG, state_adt, with_wrappers=True):
     """methods of the state struct that are called from outside its own impl
-    (or not called at all): the atomic transitions of the primitive"""
+    (or not called at all): the atomic transitions of the primitive - plus (with_wrappers) the functions outside
+    the state layer that mutate the state directly, which are transitions too"""
     ms = F.methods_of(state_adt)
     own = set(m['path'] for m in ms)
+    # closures defined inside the state's own methods are part of them
+    for fn in F.raw['fns']:
+        if fn['kind'] == 'closure' and fn.get('parent') in own:
+            own.add(fn['path'])
     out = []
     for m in ms:
         callers = [c for c, _ in CG.callers_of(m['path'])]
@@ -155,6 +281,9 @@ def entry_methods(F, CG, state_adt):
             if m.get('name') == 'new':
                 continue
             out.append(m)
+    if with_wrappers:
+        for p in sorted(breach_wrappers(F, CG).get(state_adt, {})):
+            out.append(F.fn(p))
     return out
 
 
@@ -287,3 +416,24 @@ def method_role(F, fn):
     elif ty_mentions_param(fn['locals'][0]['ty']):
         role = 'receive'
     return role, has_cx
+
+
+def call_stacks(path):
+    """for every event index the stack of function paths that is active (from the enter / exit events)"""
+    out = []
+    stack = []
+    for e in path.events:
+        if e['k'] == 'enter':
+            stack = stack + [e['fn']]
+        out.append(tuple(stack))
+        if e['k'] == 'exit' and stack:
+            stack = stack[:-1]
+    return out
+
+
+def innermost(stack, among):
+    """the innermost function of the call stack that belongs to `among` (a set of paths), or None"""
+    for f in reversed(stack):
+        if f in among:
+            return f
+    return None
